@@ -390,7 +390,8 @@ def impl_single(case, provider, vids):
         p._initialize_inference_model()
         net.apply_history(case.get("history", "fresh"))
         before = [net.stats()]
-    out = stubs.run_predict(p, provider, labels if provider == "LabelsReader" else svids[0])
+    out = stubs.run_predict(p, provider, labels if provider == "LabelsReader" else svids[0],
+                            video_range=case.get("video_range"))
     LAST.clear()
     if before is not None:
         after = [net.stats()]
@@ -430,7 +431,8 @@ def impl_topdown(case, provider, vids):
         cnet.apply_history(case.get("history", "fresh"))
         inet.apply_history(case.get("history", "fresh"))
         before = [cnet.stats(), inet.stats()]
-    out = stubs.run_predict(p, provider, labels if provider == "LabelsReader" else svids[0])
+    out = stubs.run_predict(p, provider, labels if provider == "LabelsReader" else svids[0],
+                            video_range=case.get("video_range"))
     LAST.clear()
     if before is not None:
         after = [cnet.stats(), inet.stats()]
